@@ -135,6 +135,12 @@ let pairs_of s = if s = "_" then [] else
 let ring_of keys senders =
   { kr_keys = pairs_of keys; kr_senders = (if senders = "all" then None else Some (blist_of senders)) }
 
+
+let rec int_of_z = function Z0 -> 0 | Zpos p -> int_of_pos p | Zneg p -> - (int_of_pos p)
+let cls_str = function
+  | ClsShort -> "short" | ClsNot -> "not" | ClsUnmod -> "unmod"
+  | Cls (t, v) -> Printf.sprintf "cls:%d:%d.%d" (int_of_z t) (int_of_z v.vmaj) (int_of_z v.vmin)
+
 let ints_to_str l = match l with [] -> "-" | _ -> String.concat "," (List.map string_of_int l)
 let str_to_ints s = if s = "-" then [] else List.map int_of_string (String.split_on_char ',' s)
 
@@ -204,6 +210,23 @@ let ops : (string * (string list -> string)) list = [
          String.concat " " ["ok"; (match s with None -> "anon" | Some k -> bytes_to_hex k);
                             bytes_to_hex (List.concat out.so_chunks); err_str out.so_end]
        | Err e -> "err " ^ err_str e) | _ -> failwith "args");
+  (* ---- armor / classify ---- *)
+  "armor_seal", (function [payload; typ; brand] ->
+      bytes_to_hex (m_armor62_seal (h2b payload) (z_of_int (int_of_string typ)) (h2b brand)) | _ -> failwith "args");
+  "dearmor", (function [chk; input] ->
+      let ck = if chk = "none" then None else Some (z_of_int (int_of_string chk)) in
+      (match m_dearmor ck (h2b input) with
+       | Ok d -> String.concat " " ["ok"; bytes_to_hex d.da_payload; bytes_to_hex d.da_brand; bytes_to_hex d.da_header; bytes_to_hex d.da_footer]
+       | Err e -> "err " ^ err_str e) | _ -> failwith "args");
+  "check_armor62", (function [hdr; ftr; typ] ->
+      (match m_check_armor62 (h2b hdr) (h2b ftr) (z_of_int (int_of_string typ)) with
+       | Ok b -> "ok " ^ bytes_to_hex b
+       | Err e -> "err " ^ err_str e) | _ -> failwith "args");
+  "make_frame", (function [which; typ; brand] ->
+      bytes_to_hex (m_make_frame (if which = "h" then m_header_marker else m_footer_marker) (z_of_int (int_of_string typ)) (h2b brand)) | _ -> failwith "args");
+  "binary_slice", (function [b] -> cls_str (m_binary_slice (h2b b)) | _ -> failwith "args");
+  "armored_prefix", (function [b] ->
+      let (brand, cl) = m_armored_prefix (h2b b) in bytes_to_hex brand ^ " " ^ cls_str cl | _ -> failwith "args");
 ]
 
 let () =
